@@ -215,6 +215,15 @@ Definition spec_errors (T : table) (db : database) (e : expr) : list error :=
 Definition request_errors (gradient hessian bhhh : bool) : list error :=
   if (hessian || bhhh) && negb gradient then [EHessianNoGradient] else [].
 
+(* Expression.get_value_c / get_value_and_derivatives(database, prepare_ids=True, gradient, hessian, bhhh):
+   prepare (duplicates), audit, the two placement rules, the request *)
+Definition eval_errors (T : table) (db : database) (e : expr) (gradient hessian bhhh : bool) : list error :=
+  (match prepare [e] (d_cols db) with None => [EDuplicate] | Some _ => [] end) ++
+  audit T db e ++
+  map EDrawsOutside (check_draws T e) ++
+  map ERvOutside (check_rv T e) ++
+  request_errors gradient hessian bhhh.
+
 (* ------------------------------------------------------------------ Database._audit *)
 Inductive dtype := DFloat | DInt | DComplex | DBool | DObject | DDatetime | DTimedelta | DExtension.
 
